@@ -18,7 +18,7 @@ inductive Answer where
   | error (cls file : String) (line : Nat)
   | panic (msg : String)
   | timeout
-deriving Repr
+deriving Repr, DecidableEq
 
 def answerOf : Res (List ServerBlock) → Answer
   | .ok bs => .blocks bs
